@@ -117,19 +117,31 @@ Theorem C05_byref_rows_same_length :
 Proof. exact byref_rows_same_length. Qed.
 Print Assumptions C05_byref_rows_same_length.
 
-(* The prefix clause of frame 0 (the ungapped translated reference is a prefix of the translation of the ungapped
-   reference) is kept as an explicit statement, NOT proved for the model here; every generated case is checked
-   against it by Corr/C05.v spec_ok (bounded). *)
-Definition is_prefix (a b : list byte) : Prop := exists t, b = a ++ t.
-
-Definition C05_byref_frame0_statement : Prop :=
+(* Frame 0 with gaps anywhere (reference or other rows), for EVERY alignment, reference and code: all rows of the
+   result have one length, and the translated reference with its gaps removed is a prefix of the translation of the
+   reference with its gaps removed (unbounded: invariant of the codon loop, Proofs/ByRefProofs.v) *)
+Theorem C05_byref_frame0 :
   forall gc code refname rs out refrow refout,
   genetic_code gc = Some code ->
-  (forall r r', In r rs -> In r' rs -> length (snd r) = length (snd r')) ->
   translate_by_reference NUCLEOTIDS gc 0 refname rs = Some out ->
   lassoc refname rs = Some refrow -> lassoc refname out = Some refout ->
   (forall r r', In r out -> In r' out -> length (snd r) = length (snd r')) /\
   is_prefix (ungap refout) (translate_from code (ungap refrow)).
+Proof.
+  intros gc code refname rs out refrow refout Hg H Hin Hout. split.
+  - exact (byref_rows_same_length NUCLEOTIDS gc 0 refname rs out H).
+  - exact (byref_frame0_prefix gc code refname rs out refrow refout Hg H Hin Hout).
+Qed.
+Print Assumptions C05_byref_frame0.
+
+(* non-vacuity of the frame-0 theorem: a gapped reference whose codon spans a gap *)
+Example C05_frame0_nonvacuous :
+  exists out refout,
+    (translate_by_reference NUCLEOTIDS 0 0 [x72]
+      [([x72], [x41; x2d; x54; x47; x2d; x2d; x2d; x43; x43; x2d; x43; x41]);
+       ([x73], [x41; x41; x54; x47; x43; x43; x43; x2d; x2d; x2d; x2d; x2d])] = Some out) /\
+    (lassoc [x72] out = Some refout) /\ (ungap refout = [x4d; x50]).
+Proof. eexists. eexists. split; [vm_compute; reflexivity|]. split; vm_compute; reflexivity. Qed.
 
 (* non-vacuity *)
 Example C05_nonvacuous :
